@@ -109,11 +109,28 @@ func (e *Exec) call(fr *frame, ci ssa.CallInstruction, st *State, k func(*State,
 			k(st, res)
 			return
 		}
+		if e.bounded > 0 {
+			// a function unfolded inside itself: at most two levels deep within the bound
+			if e.recDepth == nil {
+				e.recDepth = map[*ssa.Function]int{}
+			}
+			if e.recDepth[callee] >= 2 {
+				e.boundHits++
+				return
+			}
+			e.recDepth[callee]++
+			defer func() { e.recDepth[callee]-- }()
+		}
 		e.inlineDepth++
 		depth := e.inlineDepth
 		e.runFunc(callee, nil, args, binds, st, true, func(st2 *State, results []SV) {
 			saved := e.inlineDepth
 			e.inlineDepth = depth - 1
+			if e.bounded > 0 {
+				// the rest of the caller runs inside this continuation: it is not nested in the callee
+				e.recDepth[callee]--
+				defer func() { e.recDepth[callee]++ }()
+			}
 			out := SV{T: rt}
 			for _, r := range results {
 				out.L = append(out.L, r.L...)
